@@ -651,17 +651,42 @@ func ruleTSOOneCriticalSection(c *Ctx) {
 			n++
 			target := ssa.Instruction(st)
 			c.need(rule, fn, fmt.Sprintf("write of physical in %s", fnName(fn)), func(x ssa.Instruction) bool { return x == target },
-				[]Ev{&calledEv{name: "the TSO mutex was released on the way", match: func(x ssa.Instruction) bool {
-					f, op, d := lockOp(x)
-					return f == lock && op == "Unlock" && !d
-				}}}, func(h []bool) bool { return !h[0] },
-				"from taking the TSO mutex to the write of the physical time the mutex is not released (checks, save and write are atomic with respect to other requests)")
+				[]Ev{&staleReadEv{lock: lock, fields: []*types.Var{phys, P.Field(tso, "tsoObject", "logical")}}}, func(h []bool) bool { return !h[0] },
+				"the current time read under the TSO mutex is still current when the physical time is written: the mutex is not released between that read and the write (checks, save and write are atomic with respect to other requests)")
 		}
 	}
 	if n < 2 {
 		c.Undec(rule, "functions that take the TSO mutex and write the physical time", "at least 2", "", fmt.Sprint(n))
 	}
 }
+
+// staleReadEv holds once the mutex was released (explicitly, not by a deferred call) after one of the fields was
+// read under it: what was read may have changed by the time the path goes on.
+type staleReadEv struct {
+	lock   *types.Var
+	fields []*types.Var
+}
+
+func (e *staleReadEv) Name() string {
+	return "the TSO mutex was released after the current time was read"
+}
+func (e *staleReadEv) Instr(st uint8, ins ssa.Instruction) uint8 {
+	if u, ok := ins.(*ssa.UnOp); ok && u.Op == token.MUL {
+		for _, f := range e.fields {
+			if fieldOfAddr(u.X) == f {
+				return st | bPEND
+			}
+		}
+	}
+	if f, op, d := lockOp(ins); f == e.lock && op == "Unlock" && !d {
+		if st&bPEND != 0 {
+			return (st | bEST) &^ bPEND
+		}
+	}
+	return st
+}
+func (e *staleReadEv) Edge(st uint8, _ *ssa.BasicBlock, _ int) uint8 { return st }
+func (e *staleReadEv) Holds(st uint8) bool                           { return st&bEST != 0 }
 
 // ruleSyncAboveWindow: a new leader starts at max(now, last stored window +
 // guard). In SyncTimestamp the value x that is saved (x+interval) and installed
